@@ -6,6 +6,10 @@ Raw == ndJsonDeserialize(IOEnv.MODELS)
 MCModels == LET R == Raw IN [i \in DOMAIN R |-> R[i].spec]
 MCInputSets == LET R == Raw IN [i \in DOMAIN R |-> { R[i].inputs[j] : j \in DOMAIN R[i].inputs }]
 
+(* clock readings explored (the same grid the harness moves on) *)
+CONSTANT Grid
+ClockGrid == now \in Grid
+
 (* Observation variables are not part of the explored state, and creation     *)
 (* stamps matter only as the order among the tasks that hang off one          *)
 (* predecessor (Process::children sorts by them): states that differ in the   *)
@@ -17,5 +21,5 @@ CanonProc(p) ==
                            [p.ts[t] EXCEPT !.seq =
                               Cardinality({ u \in DOMAIN p.ts : p.ts[u].prev = p.ts[t].prev
                                                                /\ p.ts[u].seq < p.ts[t].seq })]]]
-View == <<[pid \in Pids |-> CanonProc(procs[pid])], queue, spawn, budget>>
+View == <<[pid \in Pids |-> CanonProc(procs[pid])], queue, spawn, budget, now>>
 =============================================================================
